@@ -146,5 +146,12 @@ check("C06", "exploration",
       "otherwise bad_boxed_cast.",
       "Trusted: the admissibility table (calibrated against the observed single-overload matrix, which agrees with the documented rules cell by cell). MAY cells and ambiguous non-exact candidate sets are logged, never judged.",
       "trace specification over an entry log of instrumented C++ functions, on generated overload sets x argument tuples, under ASan", "DESIGN.md section 5 C06")
+check("C03", "exploration",
+      "4k/400k generated programs over the whole modelled core language + 2.5k/100k minimal-parenthesis precedence expressions run on the real "
+      "engine and, as ASTs, on an independent reference interpreter of the documented semantics (lib/chailang/interp.py): stdout, final "
+      "value+type, error class and the trace of a harness callback must agree. A divergence is attributed to a recorded finding only if the "
+      "model with exactly that finding's deviation switch reproduces the engine's complete behaviour; anything else is a violation.",
+      "Trusted: the reference interpreter (my reading of cheatsheet.md and the grammar notes; validated by agreeing with the engine on thousands of programs after triage of every disagreement). Only constructs the documentation pins down are generated.",
+      "reference-model oracle (independent interpreter over the generator's AST) with deviation-switch attribution, under ASan", "DESIGN.md section 5 C03")
 for _p in ["C%02d" % i for i in range(2, 21) if "C%02d" % i not in CHECKS]:
     NA[_p] = "check not implemented yet in this revision (work in progress, see DESIGN.md); nothing is claimed"
